@@ -55,6 +55,10 @@ def run(e: Engine, rep: Report):
     g6(e, rep, 'G6')
     g7(e, rep, 'G7')
     g8(e, rep, 'G8')
+    rep.rule('G9', 'if io.recv_buffer is a property, its setter assigns '
+             'every attribute its getter reads (assign-then-read gives the '
+             'assigned value)')
+    g9(e, rep, 'G9')
     rep.floor('G1', 6, 'buffer / socket access sites')
 
 
@@ -848,3 +852,58 @@ def g8(e: Engine, rep: Report, rule: str):
     if n_r < 2:
         rep.error('anchor vanished: raise sites in the IO receive path '
                   '(%d < 2)' % n_r)
+
+
+# --------------------------------------------------------------------- G9
+def g9(e: Engine, rep: Report, rule: str = 'G9'):
+    """The receive buffer is handed back and forth between IO, the command
+    reader and the DataReader by reading and assigning `io.recv_buffer`.  If
+    that name is a property over several attributes (data + offset), then
+    assigning it must define everything reading it depends on: the setter
+    assigns every attribute the getter reads.  Otherwise a left-over
+    assigned back after DATA is read through a stale offset - commands are
+    swallowed or parsed from the middle of a line, depending on how much was
+    pipelined."""
+    n = 0
+    for cq in [IOC] + list(e.p.subclasses(IOC)):
+        c = e.p.classes.get(cq)
+        if c is None:
+            continue
+        for name, setter in sorted(c.setters.items()):
+            getter = c.methods.get(name)
+            if getter is None or getter.kind != 'property':
+                continue
+            n += 1
+            rep.evaluations += 1
+            rep.functions.add(getter.qname)
+
+            def self_attrs(fn, store):
+                out = set()
+                for x in ast.walk(fn.node):
+                    if isinstance(x, ast.Attribute) and \
+                            isinstance(x.value, ast.Name) and \
+                            x.value.id == 'self' and \
+                            isinstance(x.ctx, ast.Store if store
+                                       else ast.Load):
+                        out.add(x.attr)
+                return out
+            reads = {a for a in self_attrs(getter, False)
+                     if a not in c.methods}
+            writes = self_attrs(setter, True)
+            missing = sorted(reads - writes)
+            rep.check(not missing, rule, setter.qname,
+                      'assigning `%s` defines everything reading it uses'
+                      % name,
+                      'the `%s` property is computed from self.%s but its '
+                      'setter leaves self.%s as it was: a value assigned to '
+                      '`%s` (the left-over handed back after DATA) is not '
+                      'what is read from it next - input is lost or read '
+                      'from the middle of a line' % (
+                          name, ', self.'.join(sorted(reads)),
+                          ', self.'.join(missing), name),
+                      loc=setter.loc(), reason='setter assigns %s'
+                      % sorted(reads))
+    if n == 0:
+        rep.ok(rule, IOC, 'the receive buffer is a plain attribute',
+               reason='no property stands between its writers and readers',
+               nontrivial=False)
